@@ -6,7 +6,11 @@ use std::collections::BTreeMap;
 use std::fs::{self, File};
 use std::io::{BufReader, BufWriter, Write};
 use std::path::{Path, PathBuf};
+use std::sync::atomic::{AtomicU64, Ordering};
 use tracing::{debug, error, info, warn};
+
+/// Numbers the temporary files of `save` within this process (`segments.idx.tmp.<pid>.<n>`).
+static SAVE_SEQ: AtomicU64 = AtomicU64::new(0);
 
 #[derive(Debug, Clone, Serialize, Deserialize)]
 pub struct SegmentEntry {
@@ -217,6 +221,19 @@ impl SegmentIndex {
                 info!(target: "segment_index::load", ?tmp_path, "Found leftover temporary index file, removing");
             }
             let _ = std::fs::remove_file(&tmp_path);
+        }
+        // Same for the per-save temporary files of an earlier process. Those of this process may
+        // belong to a save that is in flight (the compactor loads the index without the shard's
+        // flush lock) and are left alone.
+        let own_prefix = format!("segments.idx.tmp.{}.", std::process::id());
+        if let Ok(entries) = std::fs::read_dir(shard_dir) {
+            for entry in entries.flatten() {
+                let name = entry.file_name();
+                let name = name.to_string_lossy();
+                if name.starts_with("segments.idx.tmp.") && !name.starts_with(&own_prefix) {
+                    let _ = std::fs::remove_file(entry.path());
+                }
+            }
         }
 
         if path.exists() {
@@ -531,8 +548,13 @@ impl SegmentIndex {
     /// This ensures crash safety: if the write fails mid-way, the old index remains intact.
     pub async fn save(&self, shard_dir: &Path) -> Result<(), StoreError> {
         let path = shard_dir.join("segments.idx");
-        let mut tmp_path = path.clone();
-        tmp_path.set_extension("idx.tmp");
+        // One temporary file per save: a shared `segments.idx.tmp` can be removed by a concurrent
+        // `load` (leftover cleanup) between its creation and the rename below
+        let tmp_path = shard_dir.join(format!(
+            "segments.idx.tmp.{}.{}",
+            std::process::id(),
+            SAVE_SEQ.fetch_add(1, Ordering::Relaxed)
+        ));
 
         // Write to temporary file first
         let file = File::create(&tmp_path)?;
